@@ -37,7 +37,8 @@ import (
 
 // Case is the replayable unit.
 type Case struct {
-	Kind  string   `json:"kind"` // op | http-env | ws-env | http-api | ws-api
+	Kind  string   `json:"kind"` // op | http-env | ws-env | http-api | ws-api | url
+	URL   *URLCase `json:"url,omitempty"`
 	Seed  uint64   `json:"seed,omitempty"`
 	Op    *Op      `json:"op,omitempty"`
 	Spec  *QSpec   `json:"spec,omitempty"`
@@ -944,6 +945,10 @@ func (h *harness) runCase(cs Case, verbose bool) *failure {
 			}
 		}
 		return r.fail
+	case "url":
+		f := h.checkURL(*cs.URL, verbose)
+		h.run.Case("url:"+cs.URL.Raw+fmt.Sprint(cs.URL.Pairs), strings.ContainsAny(cs.URL.Raw, "%+;") || len(cs.URL.Pairs) > 0)
+		return f
 	case "http-env":
 		f := h.checkHTTPEnv(*cs.HTTP)
 		h.run.Case("http-env:"+cs.HTTP.Spec.Method+cs.HTTP.Spec.RawQuery+"|"+cs.HTTP.Spec.ContentType+"|"+cs.HTTP.Spec.Body, cs.HTTP.PVars.Class == "obj" || cs.HTTP.BVars.Class == "obj" || malformedByProperty(*cs.HTTP))
@@ -1075,7 +1080,7 @@ func main() {
 		}
 		h.wsdec.srv.Close()
 	}()
-	run.SetRule("A1: HTTP requests spelled from abstract classes (method × 4 URL parameters × media type × body class; exhaustive over the classes, spellings from the PRNG); " +
+	run.SetRule("A0: raw query strings (escapes valid and invalid, separators, repeated names) against net/url; A1: HTTP requests spelled from abstract classes (method × 4 URL parameters × media type × body class; exhaustive over the classes, spellings from the PRNG); " +
 		"A2/A4: start/subscribe frames (kind × didInit × payload class); A3: the A1 envelopes through API.ServeGraphQL of rotating configurations; " +
 		"B: operations (query, operationName, variables) generated type-directed from an argument-echoing schema, sent over the 5 carriers × 8 API configurations. " +
 		"distinct = distinct concrete case; non-trivial = (op) at least one resolver ran and the operation carries variables or an operation name, " +
@@ -1120,6 +1125,23 @@ func main() {
 	}
 
 	flags := allFlags()
+
+	// A0: the URL codec transliteration against net/url
+	for i := 0; i < run.Scale(3000, 60000); i++ {
+		r := run.Rand.Fork()
+		var c URLCase
+		if i%4 == 3 {
+			c.Pairs = genURLPairs(r)
+			if c.Pairs == nil {
+				c.Pairs = [][2]string{}
+			}
+		} else {
+			c.Raw, c.Keys = genRawQuery(r)
+		}
+		cs := Case{Kind: "url", URL: &c}
+		h.report(cs, h.runCase(cs, false))
+	}
+	run.Note("phase A0 done at %.1fs", run.Elapsed().Seconds())
 
 	// A1 (+A3 on a rotating configuration): exhaustive over abstract classes
 	mapClasses := []string{"absent", "empty", "null", "obj", "bad"}
